@@ -174,3 +174,43 @@ _install2 = install
 def install(registry):      # noqa: F811
     _install2(registry)
     registry['sort:vector_fp'] = sort_vector_fp
+
+
+def sort_rawtable(I, name):
+    """A Table instance as handed to __init__ by type.__call__: allocated, not initialised."""
+    import serif.table
+    return VObj(serif.table.Table, tag='table')
+
+
+_install3 = install
+
+
+def install(registry):      # noqa: F811
+    _install3(registry)
+    registry['sort:rawtable'] = sort_rawtable
+
+
+def fresh_table(I, name, ncols):
+    """A rectangular Table with `ncols` (concrete) truthful-agnostic columns of one symbolic length."""
+    import serif.table
+    t = VObj(serif.table.Table, tag='table')
+    cols = [fresh_vector(I, f'{name}.c{j}') for j in range(ncols)]
+    n = z3.Int(fresh_name(name + '._length'))
+    I.ex.assume(n >= 0)
+    for c in cols:
+        I.ex.assume(c.fields['_underlying'].length == n)
+    t.fields.update({'_underlying': VTuple(cols), '_length': VInt(n) if ncols else VInt(0), '_dtype': NONE,
+                     '_name': fresh_of_sort(I, 'name', name + '._name'), '_display_as_row': VBool(False),
+                     '_column_map': VOpaque('column_map'), '_fp': NONE, '_fp_powers': NONE, '_wild': VBool(False),
+                     '_repr_rows': NONE})
+    t.raw_setattr = False
+    return t
+
+
+_install4 = install
+
+
+def install(registry):      # noqa: F811
+    _install4(registry)
+    for k in range(0, 4):
+        registry[f'sort:table{k}'] = (lambda I, name, k=k: fresh_table(I, name, k))
